@@ -105,7 +105,7 @@ PROPS = {
         "assumptions": COMMON_ASSUMPTIONS,
     },
     "C06": {
-        "mc": ENC_MODELS, "gen": ["encode", "encode_seq"],
+        "mc": ENC_MODELS, "gen": ["encode", "encode_seq", "bitmask"],
         "rule": "octets emitted for the TLC value catalogue and for seeded random values (all AVP variants, control and "
                 "data messages, in and out of the round-trip domain) compared octet for octet with the TLA+ encoder",
         "assumptions": COMMON_ASSUMPTIONS,
@@ -298,6 +298,8 @@ def owns(prop, ev, tag):
     if prop == "C04":
         return e == "roundtrip" and ev.get("kind") == "msg" and ev.get("v", {}).get("k") == "Data"
     if prop == "C06":
+        if e == "bitmask":
+            return tag in ("bitmask-layout", "bitmask-reencode")
         return e in ("encode", "encode_seq", "roundtrip", "chain") and tag == "octets"
     if prop == "C07":
         return e in ("encode", "encode_seq", "roundtrip", "hide") and tag in (
@@ -340,7 +342,7 @@ def owns(prop, ev, tag):
     if prop == "C16":
         return e in ("enum_map", "enum_names")
     if prop == "C17":
-        return e == "bitmask"
+        return e == "bitmask" and tag != "bitmask-layout"       # which bit carries which flag is C06's layout
     if prop == "C18":
         return e in ("cursor", "vecwriter")
     if prop == "C20":
